@@ -191,6 +191,8 @@ impl<T: RealNumber + Sum> KMeans<T> {
         let mut sums = vec![vec![T::zero(); d]; parameters.k];
         for _ in 1..=parameters.max_iter {
             let dist = bbd.clustering(&centroids, &mut sums, &mut size, &mut y);
+            #[cfg(smartcore_verif)]
+            crate::verif::kmeans_step(&centroids, &sums, &size, &y, dist);
             for i in 0..parameters.k {
                 if size[i] > 0 {
                     for j in 0..d {
